@@ -68,9 +68,18 @@ def mk_plain(spec):
     raise ValueError(k)
 
 
+def ref_points(spec, grid):
+    """coordinates of the data locations, independent of finam for unstructured cell data (mean of each cell's own nodes)"""
+    if spec["kind"] in ("tri", "mix") and spec.get("loc", "CELLS") == "CELLS":
+        pts = np.array(TRI_PTS if spec["kind"] == "tri" else MIX_PTS, dtype=float)
+        cells = TRI_CELLS if spec["kind"] == "tri" else MIX_CELLS
+        return np.array([pts[[i for i in c if i >= 0]].mean(axis=0) for c in cells])
+    return np.asarray(grid.data_points, dtype=float)
+
+
 def bits_mask(bits, grid):
     """mask over the data locations in data_points order -> array in the grid's data shape"""
-    n = len(grid.data_points)
+    n = int(np.prod([int(x) for x in grid.data_shape]))
     flat = np.array([(bits >> i) & 1 for i in range(n)], dtype=bool)
     return flat.reshape(tuple(int(s) for s in grid.data_shape), order=grid.order)
 
@@ -98,7 +107,7 @@ def run_regrid(adapter, gs, gt, smask, tmask, fields):
 
 def check_nearest(case):
     gs, gt = mk(case["src"]), mk(case["dst"])
-    sp, tp = np.asarray(gs.data_points, dtype=float), np.asarray(gt.data_points, dtype=float)
+    sp, tp = ref_points(case["src"], gs), ref_points(case["dst"], gt)
     smask = bits_mask(case["smask"], gs) if case.get("smask") is not None else None
     tmask = bits_mask(case["tmask"], gt) if case.get("tmask") is not None else None
     sm = np.zeros(len(sp), dtype=bool) if smask is None else smask.ravel(order=gs.order)
@@ -146,7 +155,7 @@ def hull_info(pts):
 
 def check_linear(case):
     gs, gt = mk(case["src"]), mk(case["dst"])
-    sp, tp = np.asarray(gs.data_points, dtype=float), np.asarray(gt.data_points, dtype=float)
+    sp, tp = ref_points(case["src"], gs), ref_points(case["dst"], gt)
     smask = bits_mask(case["smask"], gs) if case.get("smask") is not None else None
     sm = np.zeros(len(sp), dtype=bool) if smask is None else smask.ravel(order=gs.order)
     fill = case["fill"]
